@@ -51,7 +51,11 @@ def rand_config(r, small=False):
     c["x"] = r.random() < 0.6
     c["H"] = r.random() < 0.2
     c["sde"] = r.choice([None, None, None, 1500000000])
-    c["input"] = r.choice(["dir", "dir", "packfile", "packfile", "packfile-implicit"])
+    c["input"] = r.choice(["dir", "dir", "packfile", "packfile", "packfile-implicit", "glob"])
+    c["glob_keeptime"] = r.random() < 0.5
+    c["glob_nohardlinks"] = r.random() < 0.3
+    c["glob_fixed"] = r.choice([None, None, (0o750, 77, 88)])
+    c["glob_target"] = r.choice([b"", b"", b"sub/dir"])
     return c
 
 
@@ -96,6 +100,34 @@ def expected_for(tree, c):
     if c["input"] == "dir":
         return views.expect_from_tree(tree, d, keep_time=c.get("k"), set_uid=su, set_gid=sg, keep_xattr=c.get("x"),
                                       hard_links=not c.get("H"), root_from_defaults=True)
+    if c["input"] == "glob":
+        # man page, "File Globbing": scanned recursively into the (implicitly created) target; mode/uid/gid applied to new entries or kept for '*';
+        # time stamps only with -keeptime; hard links unless -nohardlinks; no xattrs
+        e = views.expect_from_tree(tree, d, keep_time=c.get("glob_keeptime"), set_uid=su, set_gid=sg, keep_xattr=False,
+                                   hard_links=not c.get("glob_nohardlinks"), root_from_defaults=True)
+        if c.get("glob_fixed"):
+            m, u, g = c["glob_fixed"]
+            for p, x in e.items():
+                if p == b"":
+                    continue
+                if x["type"] != "slink":
+                    x["mode"] = m
+                x["uid"] = u if su is None else su
+                x["gid"] = g if sg is None else sg
+        tgt = c.get("glob_target") or b""
+        if tgt:
+            out = {}
+            for p, x in e.items():
+                if p == b"":
+                    continue
+                x = dict(x)
+                x["group"] = tgt + b"/" + x["group"]
+                out[tgt + b"/" + p] = x
+            dd = {"type": "dir", "mode": d["mode"], "uid": d["uid"] if su is None else su, "gid": d["gid"] if sg is None else sg, "mtime": d["mtime"], "xattrs": []}
+            for par in [b""] + list(gentree.parents(tgt + b"/x")):
+                out[par] = dict(dd, group=par)
+            e = out
+        return e
     # pack file: the root line sets the root; no times; xattrs through -A
     e = views.expect_from_tree(tree, d, keep_time=False, set_uid=su, set_gid=sg, keep_xattr=c.get("xattr_file", False),
                                hard_links=True, root_from_defaults=False)
@@ -112,7 +144,21 @@ def run_pack(binaries, tree, c, work, oc, env_extra=None, timeout=600, stack_kb=
         env["SOURCE_DATE_EPOCH"] = str(c["sde"])
     if env_extra:
         env.update(env_extra)
-    if c["input"] == "dir":
+    if c["input"] == "glob":
+        root = os.path.join(work, "in")
+        gentree.materialise_dir(tree, root)
+        pf = os.path.join(work, "glob.txt")
+        fx = c.get("glob_fixed")
+        line = b"glob /" + (c.get("glob_target") or b"") + (b" 0%o %d %d" % fx if fx else b" * * *")
+        if c.get("glob_keeptime"):
+            line += b" -keeptime"
+        if c.get("glob_nohardlinks"):
+            line += b" -nohardlinks"
+        line += b" .\n"
+        with open(pf, "wb") as f:
+            f.write(line)
+        args += ["-F", pf, "-D", root]
+    elif c["input"] == "dir":
         root = os.path.join(work, "in")
         gentree.materialise_dir(tree, root)
         args += ["-D", root]
